@@ -356,6 +356,7 @@ pub fn run_case(lines: &[String]) -> Vec<String> {
           }));
           let log: Vec<String> = TASKLOG.with(|l| l.borrow_mut().drain(..).collect());
           TASKLOG.with(|l| l.borrow_mut().extend(saved));
+          CHKLOG.with(|l| l.borrow_mut().clear());
           let execd: Vec<String> = log.iter().filter(|x| x.starts_with("tl enter ")).map(|x| x["tl enter ".len()..].to_string()).collect();
           st.out.push(format!("cl exec [{}]", execd.join(",")));
           match r {
